@@ -485,7 +485,8 @@ class ASTTypeBuilder:
         fields = [
             InputField(
                 f.name,
-                self.extend_type(f.type),
+                # has to be lazy to support cyclic definition
+                ft.partial(self.extend_type, f.type),
                 default_value=f._default_value,
                 description=f.description,
                 node=f.node,
